@@ -15,13 +15,15 @@ abbrev Resp := Nat × String × String   -- status, headers token, body token
 
 structure St where
   session : Bool := false
+  method : String := "GET"
+  reqBody : String := "none"
   log : Bool := false                      -- traffic logger at DEBUG
   nonUtf8 : List Resp := []                -- responses whose body bytes are not valid UTF-8
   url : Option Url := none
   own : Headers := []
   caller : Headers := []
   outs : Array (Exch Resp) := #[]
-  calls : Array (String × Headers) := #[]   -- url token, headers
+  calls : Array (String × Headers × String × String) := #[]   -- url token, headers, method, data token
   res : Option (ORes Resp × String) := none -- observed result, class name ("" if none)
   parsed : Option (Option Str × Option Str) := none  -- what the real urlparse(url) answered: hostname, port
   bad : List String := []
@@ -47,6 +49,7 @@ def tf (b : Bool) : String := if b then "T" else "F"
 def step (st : St) (toks : List String) : St :=
   match toks with
   | ["req", k] => { st with session := k == "session" }
+  | ["req", k, m, b] => { st with session := k == "session", method := m, reqBody := b }
   | ["url", kind, scheme, a, d, z, port, path] =>
       let host : Host := if kind = "zoned" then .zoned (str a) (str d) (str z)
                          else if kind = "ipv6" then .ipv6 (str a) else .plain (str a)
@@ -65,7 +68,8 @@ def step (st : St) (toks : List String) : St :=
       | none => { st with bad := st.bad ++ [s!"unknown-class {c}"] }
   | ["parse", h, p] =>
       { st with parsed := some (if h = "none" then none else some (str h), if p = "-" then none else some p.toList) }
-  | ["call", u, h] => { st with calls := st.calls.push (u, parseHeaders h) }
+  | ["call", u, h] => { st with calls := st.calls.push (u, parseHeaders h, st.method, st.reqBody) }
+  | ["call", u, h, m, d] => { st with calls := st.calls.push (u, parseHeaders h, m, d) }
   | ["res", "ret", s, h, b] => { st with res := some (.ret (s.toNat!, h, b), "") }
   | ["res", "err", c, comm, conn, s] => { st with res := some (.err (comm == "T") (conn == "T") (optNat s), c) }
   | "res" :: "other" :: _ => { st with res := some (.other, "") }
@@ -93,8 +97,9 @@ def finish (st : St) : Bool × Bool × List String :=
     let notes := if mobs.attempts = st.calls.size then notes
                  else notes ++ [s!"attempts impl={st.calls.size} model={mobs.attempts}"]
     let notes := st.calls.toList.foldl (fun ns c =>
-        if c.1 = urlTok && c.2 = hdrs then ns
-        else ns ++ [s!"call impl[{c.1} {fmtHeaders c.2}] model[{urlTok} {fmtHeaders hdrs}]"]) notes
+        -- every attempt repeats THE request: same method, URL, headers and body as asked for
+        if c.1 = urlTok && c.2.1 = hdrs && c.2.2.1 = st.method && c.2.2.2 = st.reqBody then ns
+        else ns ++ [s!"call impl[{c.2.2.1} {c.1} {fmtHeaders c.2.1} data={c.2.2.2}] model[{st.method} {urlTok} {fmtHeaders hdrs} data={st.reqBody}]"]) notes
     -- the urlparse assumption, and the text-level `_fixed_host_header` on what urlparse really answered
     let notes := match st.parsed with
       | none => notes
@@ -105,9 +110,9 @@ def finish (st : St) : Bool × Bool × List String :=
           else notes ++ [s!"fixedHostText≠fixedHost for {String.ofList u.render}"]
     let iobs : Obs Resp := { result := ires, attempts := st.calls.size }
     let j1 := resultOk tables st.session outs iobs
-    let j2 := st.calls.toList.all fun c => hostOk u c.2
+    let j2 := st.calls.toList.all fun c => hostOk u c.2.1
     let jn := (if j1 then [] else [s!"judge:result impl[{fmtRes ires icls}] attempts={st.calls.size}"])
-              ++ (if j2 then [] else [s!"judge:host sent[{";".intercalate (st.calls.toList.map fun c => fmtHeaders c.2)}]"])
+              ++ (if j2 then [] else [s!"judge:host sent[{";".intercalate (st.calls.toList.map fun c => fmtHeaders c.2.1)}]"])
     (notes.isEmpty, j1 && j2, jn ++ notes)
   | _, _ => (false, false, ["incomplete case"] ++ st.bad)
 
